@@ -70,6 +70,8 @@ def run(m: Model, r: Report, tier: str) -> None:
            "round-trip guard) hold, so only genuinely malformed requests take the incorrect-format path", floor=1)
     from sa.uds_rules import request_codec_obligations
     request_codec_obligations(m, r, "R9", tier)
+    from sa.uds_rules import server_rules_index_guarded
+    server_rules_index_guarded(m, r, "R2")
     r.rule("R5", "session / security state changes only under guards on the positive response classes ISO names; seed/key sequencing", floor=6)
 
     from sa.uds_rules import iso_tables
@@ -202,8 +204,21 @@ def run(m: Model, r: Report, tier: str) -> None:
     src3 = ast.unparse(f3.node)
     t3 = decision_table(f3, m)
     outer = [n for n in walk_no_nested(f3.node) if isinstance(n, ast.If) and "_is_sub_function_request(request)" in ast.unparse(n.test)]
-    r.check(len(outer) == 1 and ast.unparse(outer[0].test) == canon_text("self._is_sub_function_request(request) and request.service_id != UDSIsoServices.RoutineControl"),
-            "R3", f"{f3.qualname}#applicability", "the rule applies to sub-function services except RoutineControl", loc=f3.loc)
+    # decision table of the applicability test: the rule applies exactly to requests of sub-function services other than RoutineControl that carry a sub-function byte
+    bad_app = ["test not found"]
+    if len(outer) == 1:
+        from sa import miniterp as _mt13
+        bad_app = []
+        for is_sf in (True, False):
+            for sid in ("RC", "OTHER"):
+                for ln in (1, 2, 3):
+                    env_ = {"request.service_id": sid, "UDSIsoServices.RoutineControl": "RC", "request.pdu": bytes(ln)}
+                    got = bool(_mt13.eval_expr(outer[0].test, env_, lambda call, env, _v=is_sf: _v if ast.unparse(call.func) == "self._is_sub_function_request" else NotImplemented))
+                    want = is_sf and sid != "RC" and ln >= 2
+                    if got != want:
+                        bad_app.append(f"sub-function service={is_sf}, service={sid}, length={ln} -> {'applies' if got else 'skipped'}")
+    r.check(not bad_app, "R3", f"{f3.qualname}#applicability", f"{bad_app[:3]}: the rule applies to sub-function services except RoutineControl, for requests that have a "
+            "sub-function byte", loc=f3.loc)
     sf = [n for n in ast.walk(f3.node) if isinstance(n, ast.Assign) and "request.pdu[1]" in ast.unparse(n.value)]
     r.check(len(sf) == 1 and ast.unparse(sf[0].value).replace(" ", "") in ("request.pdu[1]%128", "request.pdu[1]&127", "request.pdu[1]%0x80"), "R3",
             f"{f3.qualname}#sub-function-value",
